@@ -288,6 +288,22 @@ class Server:
         self.stop()
 
 
+def wait_readable(socks, timeout):
+    """select() without its descriptor-number limit (poll): the sockets of `socks` that are readable within `timeout` s"""
+    p = select.poll()
+    by_fd = {}
+    for s in socks:
+        try:
+            p.register(s.fileno(), select.POLLIN)
+            by_fd[s.fileno()] = s
+        except (OSError, ValueError):
+            pass
+    if not by_fd:
+        time.sleep(max(0.0, min(timeout, 0.05)))
+        return []
+    return [by_fd[fd] for fd, ev in p.poll(max(0.0, timeout) * 1000.0) if fd in by_fd]
+
+
 # ----------------------------------------------------------------- model client
 class Transfer:
     def __init__(self):
